@@ -119,7 +119,7 @@ func ZZC15Events() {
 		return
 	}
 	// globals named like the handlers' parameters: a parameter shadows them, it never overwrites them
-	src := "cnt := 0\nsum := 0\nk := \"gk\"\nx := 100\ny := 200\nt := 300\nid := \"gid\"\nval := \"gval\"\nprint \"top\" cnt sum\nprint k x y t id val\n"
+	src := "for range 3\n    if true\n        break\n    end\nend\ncnt := 0\nsum := 0\nk := \"gk\"\nx := 100\ny := 200\nt := 300\nid := \"gid\"\nval := \"gval\"\nprint \"top\" cnt sum\nprint k x y t id val\n"
 	twin := src
 	for i, ek := range kinds {
 		body := zzHandlerBody(ek, forms[i])
